@@ -391,7 +391,7 @@ Definition do_label (compress : bool) (low : N) (x : cstate) (lb : label) : csta
       end
   end.
 
-Definition run (compress : bool) (low : N) : cstate -> list label -> cstate := fold_left (do_label compress low).
+Definition run (compress : bool) (low : N) (x : cstate) (ls : list label) : cstate := fold_left (do_label compress low) ls x.
 
 (* the state after the walk, the test against the high water mark and the sort *)
 Definition start (sorter : list entry -> list entry) (st : state) : cstate :=
